@@ -215,10 +215,11 @@ class replace_op(base_op_state):
         plan._remove_pkg_blockers(old_choices)
         l = plan.state.fill_slotting(self.pkg, force=self.force)
         if l:
-            # revert... limiter.
-            l2 = plan.state.fill_slotting(old)
+            # revert... limiter.  old held its place before (possibly forced
+            # in next to another occupant or a blocker), so it goes back
+            # unconditionally.
+            plan.state.fill_slotting(old, force=True)
             plan.backtrack(revert_point)
-            assert not l2
             return l
 
         # wipe olds blockers.
